@@ -208,10 +208,13 @@ func newRig(t vt.TB, c config) *rigT {
 	go func() { r.fwd.Run(ctx); close(r.done) }()
 	go r.fwd.RunMetricsContext(ctx)
 	if c.manual {
+		// stands in for the component that waits for flushes (the lambda extension's heartbeat). It keeps consuming
+		// notifications until the forwarder's Run has returned: a post that finishes after cancellation still
+		// notifies, and with nobody receiving, the second such notification would block its goroutine for ever.
 		go func() {
 			for {
 				select {
-				case <-ctx.Done():
+				case <-r.done:
 					return
 				default:
 				}
